@@ -105,6 +105,19 @@ SEEDS = {
  'C17-r3-boundary-ge-offsets': (None, 'C17', 'as C17-r2-boundary-ge-offsets (independently written)', ['C17']),
  'C20-r3-hash-not-chained': (None, 'C20', '-scan-for-duplicates with two different files of the same size >= 32 KiB that share their last 32 KiB chunk', ['C20']),
  'C20-r3-udf-symlink-last-dot': (None, 'C20', 'a UDF symlink whose last component is . or .., extracted through the UDF view', ['C20']),
+ # ---- round 4
+ 'C03-r4-dirwriter-ge-exact-fit': (None, 'C03', 'as C01-r2-dirwriter-ge-exact-fit (independently written)', ['C03']),
+ 'C03-r4-seqnum-big-endian-from-set-size': (None, 'C03', 'new(set_size=2, seqnum=1): volume set size different from the volume sequence number', ['C03']),
+ 'C06-r4-zero-byte-add-not-dirty': (None, 'C06', 'lazy mode, an add that needs no new space (hard link, symlink, empty file) right after a recomputation, no growing edit afterwards', ['C06']),
+ 'C06-r4-rr-cache-kept-for-files': (None, 'C06', 'a query by rr_path of a file before rm_file, the name added again, then any rr_path operation', ['C06']),
+ 'C13-r4-version-int-parse': (None, 'C13', "a file version that int() accepts but is not all digits (';+1', '; 1', ';1_0')", ['C13']),
+ 'C13-r4-udf-length-in-characters': (None, 'C13', 'as C13-r2-udf-length-in-characters (independently written)', ['C13']),
+ 'C14-r4-rmdir-udf-emptiness-off-by-one': (None, 'C14', 'rm_directory through udf_path and iso_path/joliet_path of a directory with exactly one UDF-only child', ['C14']),
+ 'C14-r4-symlink-target-late': (None, 'C14', 'add_symlink into UDF and another namespace with an over-long UDF target component (the repaired defect, re-introduced)', ['C14']),
+ 'C16-r4-readall-no-seek': (None, 'C16', 'a direct readall() after anything else moved the backing file', ['C16']),
+ 'C16-r4-open-data-new-extent': (None, 'C16', 'opened image, an edit that moves files, a layout recomputation, then a read', ['C16']),
+ 'C19-r4-offset-from-todays-rules': (None, 'C19', 'a tzdata zone whose offset for the same DST state was different at the recorded instant (Europe/Moscow 2011-2014, Europe/London 1968-1971, ...)', ['C19']),
+ 'C19-r4-udf-year-rollover': (None, 'C19', 'a zone other than UTC and an instant at which the local year differs from the UTC year (UDF timestamps only)', ['C19']),
 }
 only = sys.argv[1:]
 if only == ['--collect']:
